@@ -53,6 +53,8 @@ TABLE = {
 ROUTES = ["%s[%s]" % (n, lab) for n, rows in TABLE.items() for (lab, kw, N, tol, tiers) in rows if "q" in tiers]
 E0_REGIONS = ["e0:175", "e0:150-175", "e0:90-150", "e0:10-90", "e0:0-10"]
 REGIONS = {r: 15 for r in E0_REGIONS}
+REGIONS["hold:long"] = 10
+LONG_HOLD = 40000        # samples of a long recording at rest (400 s at 100 Hz): "and then stays there" for as long as the recording lasts
 THOROUGH_QUOTA_MULT = 3
 PROBES = [("ahrs.filters.madgwick", "Madgwick.updateIMU"), ("ahrs.filters.madgwick", "Madgwick.updateMARG"),
           ("ahrs.filters.mahony", "Mahony.updateIMU"), ("ahrs.filters.mahony", "Mahony.updateMARG"),
@@ -100,7 +102,7 @@ def gyro_noise(rng, n, sigma, mode, keep_dead_rows=False):
 
 
 def e0_of(rng, reg):
-    return {"e0:175": lambda: 175.0, "e0:150-175": lambda: float(rng.uniform(150, 175)), "e0:90-150": lambda: float(rng.uniform(90, 150)),
+    return {"hold:long": lambda: float(rng.uniform(10, 90)), "e0:175": lambda: 175.0, "e0:150-175": lambda: float(rng.uniform(150, 175)), "e0:90-150": lambda: float(rng.uniform(90, 150)),
             "e0:10-90": lambda: float(rng.uniform(10, 90)), "e0:0-10": lambda: gens.logu(rng, 1e-2, 10.0)}[reg]()
 
 
@@ -110,7 +112,7 @@ def generate(rng, tier, shard, nshards):
     k = 0
     for rep in range(reps):
         for (name, lab) in rows:
-            for reg in E0_REGIONS:
+            for reg in E0_REGIONS + (["hold:long"] if rep == 0 else []):
                 k += 1
                 if k % nshards != shard:
                     continue
@@ -186,6 +188,8 @@ def check(case, ctx):
         ua = 9.81       # AQUA's adaptive gain is a function of | |acc| - g | by design: its accelerometer must report in m/s^2
     acc, mag = cfg.measurements(qt, g_ref, m_ref, sa=ua, sm=um)
     n_tot = int(1.5 * N) + 1
+    if case.region == "hold:long":
+        n_tot = max(n_tot, LONG_HOLD + 1)
     keep_dead = not cfg.name.startswith(NULL_RATE_IS_NO_DATA)
     mode_ = p.get("gyro_mode", "gaussian")
     if keep_dead and mode_ == "two-axes" and int(p["seed"]) % 2:
